@@ -765,9 +765,105 @@ pub fn oracle_dev_all(op: &str, outs: &[String]) -> String {
     "ok".into()
 }
 
+/// C05 / C07 on the non-blocking front-end: a frame the radio reports while the device waits in a
+/// receive window (the frame reached the MAC: the answer is not a state error) is acted upon iff it
+/// is authentic, fresh and fits the size limit of the window that was opened (`rxreq(..)`); only
+/// then is anything delivered
+pub fn oracle_c05_nb(op: &str, outs: &[String]) -> String {
+    let evs: Vec<&str> = op.split(';').skip(1).map(|s| s.trim()).collect();
+    let mut last: Option<u32> = None;
+    let mut joined = false;
+    let mut joining = false;
+    let mut mp: Option<u32> = None;
+    for (ev, o) in evs.iter().zip(outs.iter()) {
+        if o == "PANIC" || o == "HANG" {
+            return format!("FAIL:{}", o);
+        }
+        let w: Vec<&str> = ev.split('|').next().unwrap_or("").split_whitespace().collect();
+        if let Some(i) = o.find("rxreq(") {
+            let f: Vec<&str> = o[i + 6..].split(')').next().unwrap_or("").split(',').collect();
+            mp = f.get(3).and_then(|x| x.parse().ok());
+        }
+        match w.first().copied() {
+            Some("abp") => {
+                joined = true;
+                joining = false;
+                last = None;
+            }
+            Some("sess") => {
+                joined = true;
+                joining = false;
+                last = w.get(3).and_then(|x| x.parse().ok());
+            }
+            Some("njoin") => {
+                if o.contains("txreq(") || o.contains("Err(Radio)") {
+                    joined = false;
+                    joining = true;
+                }
+            }
+            Some("nradio") if w.get(1) == Some(&"rx") => {
+                let res = o.split(" => ").nth(1).unwrap_or("");
+                if res.starts_with("Err(") {
+                    continue; // never reached the MAC (wrong state) or a radio error
+                }
+                if w.get(4) == Some(&"j") {
+                    if joining && w.get(5) == Some(&"1") {
+                        if !res.starts_with("JoinSuccess") {
+                            return "FAIL:authentic-join-accept-not-accepted".into();
+                        }
+                        joined = true;
+                        joining = false;
+                        last = None;
+                    } else if res.starts_with("JoinSuccess") {
+                        return "FAIL:join-success-without-authentic-join-accept".into();
+                    }
+                    continue;
+                }
+                let dls = o.split(" dls=").nth(1).unwrap_or("-").trim();
+                if w.get(4) != Some(&"d") || w.len() < 12 || !joined {
+                    if res.starts_with("DownlinkReceived(") || dls != "-" {
+                        return "FAIL:unacceptable-frame-acted-upon".into();
+                    }
+                    continue;
+                }
+                let len: u32 = w[5].parse().unwrap_or(0);
+                let f16: u32 = w[7].parse().unwrap_or(0);
+                let mic: Option<u32> = w[8].parse().ok();
+                let fresh = match (mic, last) {
+                    (Some(n), None) => n == f16,
+                    (Some(n), Some(l)) => n % 65536 == f16 && (l as u64) < n as u64 && n as u64 <= l as u64 + 16384,
+                    (None, _) => false,
+                };
+                let fits = match mp {
+                    Some(m) => len <= m + 5,
+                    None => continue,
+                };
+                let acted = res.starts_with("DownlinkReceived(") || res.starts_with("SessionExpired");
+                if acted != (fresh && fits) {
+                    return format!("FAIL:frame-fcnt16={}-mic={:?}-last={:?}-fits={}-was-{}acted-upon", f16, mic, last, fits, if acted { "" } else { "not-" });
+                }
+                if acted {
+                    last = mic;
+                    let want = match w[10].parse::<u8>() {
+                        Ok(p) if p > 0 => format!("{}:{}", p, if w[11] == "-" { "" } else { w[11] }),
+                        _ => "-".to_string(),
+                    };
+                    if dls != want {
+                        return format!("FAIL:delivered-[{}]-expected-[{}]", dls, want);
+                    }
+                } else if dls != "-" {
+                    return "FAIL:rejected-frame-delivered".into();
+                }
+            }
+            _ => {}
+        }
+    }
+    "ok".into()
+}
+
 /// … and to the non-blocking front-end
 pub fn oracle_nb_all(op: &str, outs: &[String]) -> String {
-    for f in [oracle_c04_dev as fn(&str, &[String]) -> String, oracle_c06_dev, oracle_c10_nb] {
+    for f in [oracle_c04_dev as fn(&str, &[String]) -> String, oracle_c06_dev, oracle_c10_nb, oracle_c05_nb] {
         let r = f(op, outs);
         if r != "ok" {
             return r;
